@@ -283,6 +283,11 @@ pub fn unwind_info_starts(d: &[u8]) -> Option<Vec<u32>> {
 /// file offset of the LC_FUNCTION_STARTS load command of a thin little-endian Mach-O file (its `datasize` field is
 /// at +12)
 pub fn macho_function_starts_cmd(bytes: &[u8]) -> Option<usize> {
+    macho_load_cmd(bytes, 0x26)
+}
+
+/// file offset of the first load command `want` (LC_SYMTAB = 2: its `nsyms` field is at +12)
+pub fn macho_load_cmd(bytes: &[u8], want: u32) -> Option<usize> {
     let hdr = match rd_u32(bytes, 0, true)? {
         0xfeedface => 28usize,
         0xfeedfacf => 32usize,
@@ -296,7 +301,7 @@ pub fn macho_function_starts_cmd(bytes: &[u8]) -> Option<usize> {
         if size < 8 {
             return None;
         }
-        if cmd == 0x26 {
+        if cmd == want as u64 {
             return Some(pos);
         }
         pos += size;
@@ -422,7 +427,7 @@ pub fn presentation(bytes: &[u8], tag: &str) -> Option<Vec<String>> {
         }
         "pe" => {
             if let Some(data) = file.section_by_name_bytes(b".pdata").and_then(|s| s.data().ok()) {
-                out.push(format!("fpdata {}", if data.is_empty() { String::new() } else { hex(data) }));
+                out.push(if data.is_empty() { "fpdata".to_string() } else { format!("fpdata {}", hex(data)) });
             }
         }
         "macho" | "dsym" => {
@@ -430,7 +435,7 @@ pub fn presentation(bytes: &[u8], tag: &str) -> Option<Vec<String>> {
                 return None;
             }
             if let Some(data) = macho_function_starts_data(bytes)? {
-                out.push(format!("fstartsraw {}", if data.is_empty() { String::new() } else { hex(data) }));
+                out.push(if data.is_empty() { "fstartsraw".to_string() } else { format!("fstartsraw {}", hex(data)) });
             }
             if let Some(data) = file.section_by_name_bytes(b"__unwind_info").and_then(|s| s.data().ok()) {
                 // `UnwindInfo::parse` = three bounds checks on the header
